@@ -21,14 +21,17 @@ META = {
         "PARTIAL with refutations. Proved for ALL atoms (no bounds, induction over strings/lists): within the "
         "column capacities (guard fixed_ok: serial<=5 chars, resSeq<=4, coordinates<=8, charge<=8, radius<=7, "
         "names<=4, chain/iCode<=1) slicing the default-layout line at the writer's columns returns every field; "
-        "in the region where tokens stay separated (guard ws_ok) pdb2pqr's own reader applied to the "
-        "--whitespace line returns the atom; both lifted to whole atom lists (serial = position, order kept, "
-        "TER/END dropped by --whitespace). The full statement over the property's quantifier is REFUTED by "
-        "the model with witnesses (serial>=100000, resSeq>=10000, coordinate beyond 8 columns, chain+resSeq "
-        "fused, resSeq+iCode fused, digit chain id read as resSeq), each replayed on the real code and listed "
-        "as known findings. Model tied to the code by exact string equality of formatted lines, re-spaced "
-        "lines, written files and parse results on boundary-heavy generated atoms, plus an independent "
-        "write/read-back oracle on the real code."
+        "under the same capacities, with non-empty names and a chain id / insertion code that is not a digit "
+        "(guard ws_ok), pdb2pqr's own reader applied to the --whitespace line returns the atom incl. chain id "
+        "(--keep-chain) next to a 4-character resSeq and the insertion code (the repaired C08-F4/F5: print_pqr "
+        "now puts a blank at every field boundary); both lifted to whole atom lists (serial = position, order "
+        "kept, TER/END dropped by --whitespace) for PDB and mmCIF input (the '#' trailer is skipped by the "
+        "reader: repaired C08-F7). The full statement over the property's quantifier is REFUTED by the model "
+        "with witnesses (serial>=100000, resSeq>=10000, coordinate beyond 8 columns - format limits in both "
+        "layouts; digit chain id read as resSeq, digit insertion code read as x - ambiguities of the token "
+        "grammar), each replayed on the real code and listed as known findings. Model tied to the code by "
+        "exact string equality of formatted lines, re-spaced lines, written files and parse results on "
+        "boundary-heavy generated atoms, plus an independent write/read-back oracle on the real code."
     ),
     "level_note": (
         "Trusted: Coq kernel+vm_compute; Python's binary->decimal rounding of '%.3f'/'%.4f' (numbers enter the "
@@ -46,14 +49,16 @@ THEOREMS = [
     "C08_fixed_res_seq_refuted",
     "C08_fixed_coord_refuted",
     "C08_ws_roundtrip_partial",
+    "C08_ws_guard",
     "C08_ws_file_roundtrip_partial",
-    "C08_ws_chain_res_seq_refuted",
-    "C08_ws_ins_code_refuted",
+    "C08_ws_chain_res_seq_roundtrip",
+    "C08_ws_ins_code_roundtrip",
+    "C08_ws_repaired_witnesses",
     "C08_ws_digit_chain_refuted",
-    "C08_ws_charge_radius_fused",
-    "C08_ws_cif_trailer_refuted",
+    "C08_ws_digit_ins_refuted",
     "C08_chainflag_only_col22",
     "C08_respace_keeps_numeric_tokens",
+    "C08_respace_keeps_numeric_tokens_wide",
     "C08_serial_is_position",
     "C08_order_preserved",
     "C08_ws_file_lines",
@@ -300,6 +305,10 @@ def impl_parse(line):
         return "IndexError"
     if a is None:
         return "NONE"
+    return impl_tuple(a)
+
+
+def impl_tuple(a):
     return ("ATOM", a.type, a.serial, a.name, a.res_name, a.chain_id, a.res_seq, a.ins_code, a.x, a.y, a.z, a.charge, a.radius)
 
 
@@ -405,9 +414,12 @@ def field_ok(k, want, got):
     return got == want
 
 
-def causes(d, keep_chain, whitespace):
-    """The defect classes the atom's VALUES put it in (numeric conditions only,
-    no model involved): list of (explained fields, signature)."""
+def causes(d, keep_chain, whitespace, line=None):
+    """The defect classes that explain a failed read-back of this atom (no
+    model involved): list of (explained fields, signature).  Capacity classes
+    follow from the atom's VALUES; the fusion classes (repaired C08-F4/F5, kept
+    so that a regression is reported under its own signature) need the fused
+    token to be present in the written line."""
     out = []
     site = "Atom.get_common_string_rep"
     if len(str(d["serial"])) > 5:
@@ -418,16 +430,28 @@ def causes(d, keep_chain, whitespace):
         neg, mag = fx(d[k], 3)
         if (neg and mag >= 1000000) or (not neg and mag >= 10000000):
             out.append(({k}, {"site": site, "field": "coordinate", "condition": "overflow-8-columns"}))
-    if whitespace:
-        if keep_chain and d["chain_id"] != "" and len(str(d["res_seq"])) >= 4:
+    if whitespace and line is not None:
+        toks = line.split()
+        rsf = str(d["res_seq"]).rjust(4)[:4].strip()
+        chain = d["chain_id"][:1] if keep_chain else ""
+        if chain != "" and len(toks) > 4 and toks[4] != chain and toks[4].startswith(chain + rsf):
             out.append(({"*"}, {"site": "main.print_pqr", "field": "chain_id+res_seq", "condition": "whitespace-fused"}))
-        if d["ins_code"] != "":
+        if d["ins_code"] != "" and any(t.endswith(rsf + d["ins_code"]) for t in toks[4:6]):
             out.append(({"*"}, {"site": "main.print_pqr", "field": "res_seq+ins_code", "condition": "whitespace-fused"}))
     return out
 
 
 def digit_chain(d, keep_chain):
     return keep_chain and PLAIN_INT.match(d["chain_id"]) is not None
+
+
+def numeric_ins(d):
+    """The insertion code is a token float() accepts (one character: a digit)."""
+    try:
+        float(d["ins_code"])
+        return d["ins_code"] != ""
+    except ValueError:
+        return False
 
 
 def check_default(d, keep_chain, line):
@@ -464,15 +488,17 @@ def check_ws_tokens(d, keep_chain, line):
         bad = {"token-count"}
     else:
         bad = {k for k, t in zip(order, toks) if not field_ok(k, want[k], t)}
-    return explain(bad, causes(d, keep_chain, True), "whitespace-layout/split", f"line={line!r}")
+    return explain(bad, causes(d, keep_chain, True, line), "whitespace-layout/split", f"line={line!r}")
 
 
 def check_ws_reader(d, keep_chain, parsed, line):
     """pdb2pqr's own reader on one --whitespace line (parsed = impl_parse tuple)."""
     want = expected_values(d, keep_chain)
-    cs = causes(d, keep_chain, True)
+    cs = causes(d, keep_chain, True, line)
     if digit_chain(d, keep_chain):
         cs = cs + [({"*"}, {"site": "Atom.from_pqr_line", "field": "chain_id", "condition": "numeric-chain-read-as-res_seq"})]
+    if numeric_ins(d):
+        cs = cs + [({"*"}, {"site": "Atom.from_pqr_line", "field": "ins_code", "condition": "numeric-ins-code-read-as-x"})]
     if isinstance(parsed, str):
         bad = {"raises-" + parsed}
     else:
@@ -525,25 +551,56 @@ def class_key(d):
 # --------------------------------------------------------------------------
 # refutation witnesses of Properties/C08.v, replayed on the real code
 
+BASE_READ = ("ATOM", "ATOM", 1, "CA", "ALA", None, 12, None, 1.0, -2.5, 3.125, -0.5, 1.8)
+
+
+def rd(**kw):
+    """impl_parse tuple of the base atom with some fields replaced."""
+    names = ["", "type", "serial", "name", "res_name", "chain_id", "res_seq", "ins_code", "x", "y", "z", "charge", "radius"]
+    return tuple(kw.get(n, v) for n, v in zip(names, BASE_READ))
+
+
 WITNESSES = [
     # (theorem, atom, in_quantifier, observation on the real code that the theorem states)
+    # -- refutations (known findings that stay)
     ("C08_fixed_serial_refuted", variant(serial=100000), True, lambda L, P: L[(False, False)] == "ATOM  10000  CA  ALA    12       1.000  -2.500   3.125 -0.5000 1.8000\n" and slice_line(L[(False, False)])["serial"] == "10000"),
     ("C08_fixed_res_seq_refuted", variant(res_seq=10000), True, lambda L, P: slice_line(L[(False, False)])["res_seq"] == "1000"),
     ("C08_fixed_coord_refuted(+)", variant(x=10000.123), True, lambda L, P: slice_line(L[(False, False)])["x"] == "10000.12"),
     ("C08_fixed_coord_refuted(-)", variant(x=-1000.123), True, lambda L, P: slice_line(L[(False, False)])["x"] == "-1000.12"),
-    ("C08_ws_chain_res_seq_refuted", variant(res_seq=1000), True, lambda L, P: L[(True, True)].split() == ["ATOM", "1", "CA", "ALA", "A1000", "1.000", "-2.500", "3.125", "-0.5000", "1.8000"] and P[(True, True)] == "ValueError"),
-    ("C08_ws_ins_code_refuted", variant(ins_code="B"), True, lambda L, P: L[(False, True)].split() == ["ATOM", "1", "CA", "ALA", "12B", "1.000", "-2.500", "3.125", "-0.5000", "1.8000"] and P[(False, True)] == "ValueError" and P[(True, True)] == "ValueError"),
     ("C08_ws_digit_chain_refuted", variant(chain_id="1"), True, lambda L, P: not isinstance(P[(True, True)], str) and P[(True, True)][5] is None and P[(True, True)][6] == 1 and P[(True, True)][8] == 12.0 and P[(True, True)][12] == -0.5),
-    ("C08_ws_charge_radius_fused(charge)", variant(ffcharge=-10.5), False, lambda L, P: L[(False, True)].split() == ["ATOM", "1", "CA", "ALA", "12", "1.000", "-2.500", "3.125-10.5000", "1.8000"] and P[(False, True)] == "ValueError"),
-    ("C08_ws_charge_radius_fused(radius)", variant(radius=10.5), False, lambda L, P: L[(False, True)].split() == ["ATOM", "1", "CA", "ALA", "12", "1.000", "-2.500", "3.125", "-0.500010.5000"] and P[(False, True)] == "ValueError"),
+    ("C08_ws_digit_ins_refuted", variant(ins_code="1"), True, lambda L, P: L[(False, True)].split() == ["ATOM", "1", "CA", "ALA", "12", "1", "1.000", "-2.500", "3.125", "-0.5000", "1.8000"] and P[(False, True)] == rd(x=1.0, y=1.0, z=-2.5, charge=3.125, radius=-0.5)),
+    # -- repaired defects: the former refutation witnesses must round-trip (C08_ws_repaired_witnesses)
+    ("C08_ws_repaired_witnesses(F4 chain+resSeq)", variant(res_seq=1000), True, lambda L, P: L[(True, True)] == "ATOM       1  CA   ALA A 1000        1.000   -2.500    3.125  -0.5000  1.8000\n" and P[(True, True)] == rd(chain_id="A", res_seq=1000) and P[(False, True)] == rd(res_seq=1000)),
+    ("C08_ws_repaired_witnesses(F5 resSeq+iCode)", variant(ins_code="B"), True, lambda L, P: L[(False, True)] == "ATOM       1  CA   ALA     12 B      1.000   -2.500    3.125  -0.5000  1.8000\n" and L[(True, True)] == "ATOM       1  CA   ALA A   12 B      1.000   -2.500    3.125  -0.5000  1.8000\n" and P[(False, True)] == rd(ins_code="B") and P[(True, True)] == rd(chain_id="A", ins_code="B")),
+    ("C08_ws_repaired_witnesses(z|charge)", variant(ffcharge=-10.5), False, lambda L, P: L[(False, True)].split() == ["ATOM", "1", "CA", "ALA", "12", "1.000", "-2.500", "3.125", "-10.5000", "1.8000"] and P[(False, True)] == rd(charge=-10.5)),
+    ("C08_ws_repaired_witnesses(charge|radius)", variant(radius=10.5), False, lambda L, P: L[(False, True)].split() == ["ATOM", "1", "CA", "ALA", "12", "1.000", "-2.500", "3.125", "-0.5000", "10.5000"] and P[(False, True)] == rd(radius=10.5)),
+    ("C08_nonvacuous(edge_atom_ws4)", variant(type="HETATM", serial=99999, name="HD11", res_name="LIG1", chain_id="Z", res_seq=-999, ins_code="X", x=-999.999, y=9999.999, z=-0.0, ffcharge=-9.9999, radius=9.9999), True, lambda L, P: P[(True, True)][1:8] == ("HETATM", 99999, "HD11", "LIG1", "Z", -999, "X") and P[(False, True)][5:8] == (None, -999, "X")),
 ]
+
+
+def replay_cif_witness(ctx):
+    """C08_ws_repaired_witnesses, last part (repaired C08-F7): the --whitespace file
+    of mmCIF input is the atom line + '#', and io.read_pqr returns the atom."""
+    import io as _io
+
+    from pdb2pqr import io as pio
+
+    lines = pio.print_biomolecule_atoms([mk_atom(BASE)], False)
+    text = impl_print_pqr(ctx, lines, True, True)
+    want = "ATOM       1  CA   ALA     12        1.000   -2.500    3.125  -0.5000  1.8000\n#\n"
+    try:
+        got = [impl_tuple(a) for a in pio.read_pqr(_io.StringIO(text))]
+    except (ValueError, IndexError) as e:
+        got = type(e).__name__
+    return text == want and got == [BASE_READ], f"text={text!r} read={got!r}"
+
 
 # --------------------------------------------------------------------------
 # token and malformed-line streams
 
 INT_TOKS = ["0", "7", "-7", "+7", "007", "-0", "1_000", "1__0", "_1", "1_", "+", "-", "_", "--1", "+-1", "1.0", "1e3", "0x10", "12B", "A12", "A", "1-2", "9999999999999999999999", "-_1", "1_2_3", "+1_0"]
 FLOAT_TOKS = ["1.000", "-2.500", "0.0", "-0.000", ".5", "5.", "-.5", "+.5", ".", "-", "+", "1e5", "1E-3", "1.e5", ".e5", "e5", "1e", "1e+", "1e+5", "1_0.5", "1._5", "1_.5", "1.5_0", "1__0.0", "inf", "-inf", "+Infinity", "iNf", "nan", "-NAN", "nane", "infinit", "1.0.0", "1,0", "0x1p3", "12B", "B", "A1000", "3.125-10.5000", "-0.500010.5000", "--1.0", "1-", "1e5.0", "1e_5", "00012.50", "+00.0"]
-JUNK = INT_TOKS + FLOAT_TOKS + ["ATOM", "HETATM", "ATOM12345", "HETATM123456", "ATOMX", "ATO", "HETATMX1", "REMARK", "TER", "END", "HEADER", "JRNL", "CA", "ALA", "A", "1", "12", "-5", "1.5", "2.25", "-3.125", "0.5000", "1.8000"]
+JUNK = INT_TOKS + FLOAT_TOKS + ["ATOM", "HETATM", "ATOM12345", "HETATM123456", "ATOMX", "ATO", "HETATMX1", "REMARK", "TER", "END", "HEADER", "JRNL", "CA", "ALA", "A", "1", "12", "-5", "1.5", "2.25", "-3.125", "0.5000", "1.8000", "#", "#1", "A#"]
 
 
 def gen_line(rng):
@@ -570,7 +627,7 @@ def gen_line(rng):
     elif r < 0.93:
         toks = [rng.choice(JUNK) for _ in range(rng.randint(0, 12))]
     else:
-        toks = [rng.choice(["REMARK", "TER", "END", "HEADER", "TITLE", "COMPND", "SOURCE", "KEYWDS", "EXPDTA", "AUTHOR", "REVDAT", "JRNL", "REMARKS", "remark"])] + toks[1:]
+        toks = [rng.choice(["REMARK", "TER", "END", "HEADER", "TITLE", "COMPND", "SOURCE", "KEYWDS", "EXPDTA", "AUTHOR", "REVDAT", "JRNL", "REMARKS", "remark", "#", "#", "#REMARK", "##"])] + toks[1:]
     sep = [" ", "  ", "\t", "   "]
     line = rng.choice(["", "", " "]) + "".join(t + rng.choice(sep) for t in toks)
     return line.rstrip(" \t") + rng.choice(["\n", "\n", "", " \n", "\r\n"]) if rng.random() < 0.9 else line
@@ -706,6 +763,9 @@ def corr_lines(ctx, n):
     """Atom.from_pqr_line on well-formed and malformed lines; int()/float() token classes."""
     rng = ctx.rng
     lines = [gen_line(rng) for _ in range(n)]
+    lines += ["#\n", "#", " # \n", "# comment 1 2\n", "#ATOM 1 CA ALA 1 1.0 2.0 3.0 0.5 1.5\n", "ATOM# 1\n", "A#\n",
+              "ATOM 1 CA ALA A 1000 1.0 2.0 3.0 0.5 1.5\n", "ATOM 1 CA ALA A -999 B 1.0 2.0 3.0 0.5 1.5\n", "ATOM 1 CA ALA 12 B 1.0 2.0 3.0 0.5 1.5\n",
+              "ATOM 1 CA ALA 12 1 1.0 2.0 3.0 0.5 1.5\n", "ATOM 1 CA ALA 1 12 1.0 2.0 3.0 0.5 1.5\n"]
     lines += ["", "\n", "   \n", "TER\n", "END", "ATOM\n", "HETATM 1\n", "ATOM 1 CA ALA 1 1.0 2.0 3.0 0.5 1.5\n", "ATOM 1 CA ALA 1 1.0 2.0 3.0 0.5 1.5 extra tokens\n",
               "ATOM 1 CA ALA A 1 B 1.0 2.0 3.0 0.5 1.5\n", "ATOM12345 CA ALA 1 1.0 2.0 3.0 0.5 1.5\n", "HETATM12345 CA ALA 1 1.0 2.0 3.0 0.5 1.5\n",
               "ATOM 1 CA ALA 1 1.0 2.0 3.0 0.5\n", "ATOM 1 CA ALA 1 2 3 4 5 6\n", "ATOM 1 CA ALA 1 1 2 3 4 5 6\n", "ATOM x CA ALA 1 1.0 2.0 3.0 0.5 1.5\n"]
@@ -766,6 +826,10 @@ def replay_witnesses(ctx):
             ctx.broke("correspondence-broken", f"witness of {thm} does not behave on the real code as the theorem states", f"atom={d!r} lines={L!r} parsed={P!r}", {"atom": d})
         if inq != in_quantifier(d):
             ctx.broke("harness-error", f"witness of {thm}: in_quantifier mismatch", str(d))
+    ok, detail = replay_cif_witness(ctx)
+    ctx.count("witness-replayed")
+    if not ok:
+        ctx.broke("correspondence-broken", "witness of C08_ws_repaired_witnesses ('#' trailer of mmCIF input) does not behave on the real code as the theorem states", detail, {"atom": BASE, "is_cif": True})
 
 
 def search(ctx, atoms, real=None):
@@ -805,6 +869,8 @@ def search_pipeline(ctx, nfiles):
             d["chain_id"] = chain
             atoms.append(d)
         jobs.append(atoms)
+    # a plain two-chain file (TER line inside): the mmCIF-input branch below always sees a file whose body is readable
+    jobs.insert(0, [variant(name="N", res_seq=1000), variant(), variant(chain_id="B", res_seq=-100, name="O")])
     big = [variant(name=rng.choice(NAMES), res_seq=(i // 10) % 9000 + 1, x=(i % 977) * 0.731 - 300, chain_id="") for i in range(100003)]
     jobs.append(big)
     for atoms in jobs:
@@ -832,12 +898,16 @@ def search_pipeline(ctx, nfiles):
                         fl = check_ws_tokens(d, cf, line) + check_ws_reader(d, cf, impl_parse(line), line)
                     for sig, what in fl:
                         ctx.fail(sig, what, {"atom": d, "layout": "whitespace" if ws else "default", "keep_chain": cf, "via": "print_biomolecule_atoms"})
-                if ws and not isbig and not cf and len(atoms) <= 3:
+                if ws and not isbig and len(atoms) <= 3:
                     # mmCIF input: same lines, is_cif=True appends '#'
                     tcif = impl_print_pqr(ctx, lines, ws, True)
-                    ctx.evaluated(("file-cif", len(atoms)), True)
+                    ctx.evaluated(("file-cif", len(atoms), cf), True)
                     try:
-                        pio.read_pqr(_io.StringIO(tcif))
+                        rcif = pio.read_pqr(_io.StringIO(tcif))
+                        if tcif != text + "#\n":
+                            ctx.fail({"site": "main.print_pqr", "field": "cif-file", "condition": "not the atom lines + '#'"}, f"is_cif=True wrote {tcif[-80:]!r}", {"atoms": atoms, "keep_chain": cf, "is_cif": True})
+                        elif all(not numeric_ins(a) for a in atoms) and len(rcif) != len(atoms):
+                            ctx.fail({"site": "io.read_pqr", "field": "atom-count", "condition": "atoms lost"}, f"read {len(rcif)} of {len(atoms)} (mmCIF input)", {"atoms": atoms, "keep_chain": cf, "is_cif": True})
                     except (ValueError, IndexError) as e:
                         body_ok = True
                         try:
@@ -898,8 +968,9 @@ def run(ctx):
         search(ctx, extra)
     d0 = atoms[3]
     ctx.sample({"atom": d0, "default": impl_line(d0, True), "whitespace": impl_print_pqr(ctx, [impl_line(d0, True) + "\n"], True)})
-    ctx.sample({"witness": WITNESSES[4][1], "whitespace_keep_chain_line": impl_print_pqr(ctx, [impl_line(WITNESSES[4][1], True) + "\n"], True), "own_reader": str(impl_parse(impl_print_pqr(ctx, [impl_line(WITNESSES[4][1], True) + "\n"], True)))})
-    ctx.sample({"obligation": "C08_ws_roundtrip_partial: forall cf a, ws_ok cf a = true -> from_pqr_line (ws_line cf a) = PAtom (expected_ws cf a)"})
+    w4 = variant(res_seq=1000, ins_code="B")
+    ctx.sample({"atom (chain A, resSeq 1000, iCode B)": w4, "whitespace_keep_chain_line": impl_print_pqr(ctx, [impl_line(w4, True) + "\n"], True), "own_reader": str(impl_parse(impl_print_pqr(ctx, [impl_line(w4, True) + "\n"], True)))})
+    ctx.sample({"obligation": "C08_ws_roundtrip_partial: forall cf a, ws_ok cf a = true -> from_pqr_line (ws_line cf a) = PAtom (expected_ws cf a); ws_ok = fixed_ok (column capacities) + non-empty names + chain id / insertion code not a digit"})
     ctx.trusted += [
         "oracle: Python's binary->decimal rounding in '%.3f'/'%.4f' (the harness hands the model the rounded magnitude and the sign, computed with decimal.quantize ROUND_HALF_EVEN)",
         "modelled, not verified: Atom.get_common_string_rep/get_pqr_string/from_pqr_line, io.print_biomolecule_atoms/read_pqr, main.print_pqr (hand model Model/PqrFormat.v, tied by exact string/parse equality on generated cases)",
@@ -916,6 +987,22 @@ def run(ctx):
 
 def replay(ctx, data):
     case = data["case"]
+    if "atoms" in case and case.get("is_cif"):
+        import io as _io
+
+        from pdb2pqr import io as pio
+
+        atoms = [{k: a[k] for k in FIELDS} for a in case["atoms"]]
+        lines = pio.print_biomolecule_atoms([mk_atom(d) for d in atoms], bool(case.get("keep_chain")))
+        text = impl_print_pqr(ctx, lines, True, True)
+        print(f"replay: --whitespace file for mmCIF input: {text!r}")
+        try:
+            got = pio.read_pqr(_io.StringIO(text))
+        except (ValueError, IndexError) as e:
+            print(f"replay: FAILS io.read_pqr raises {type(e).__name__}: {e}")
+            return 1
+        print(f"replay: io.read_pqr returns {len(got)} atoms for {len(atoms)} written")
+        return 0 if len(got) == len(atoms) else 1
     if "atom" not in case:
         print("replay: no atom in case (proof/correspondence break):", str(data.get("no_longer_checks"))[:300])
         return 1
